@@ -42,7 +42,7 @@ def grid_nm(draw, lo=200.0, hi=3000.0, nmin=2, nmax=40):
 
 @st.composite
 def pair_case(draw, tier="quick"):
-    relation = draw(st.sampled_from(["identical", "nested", "partial", "disjoint", "free"]))
+    relation = draw(st.sampled_from(["identical", "nested", "partial", "disjoint", "free", "same_numbers"]))
     nmax = 25 if tier == "quick" else 60
     w1, k1 = draw(grid_nm(nmax=nmax))
     if relation == "identical":
@@ -94,6 +94,16 @@ def pair_case(draw, tier="quick"):
         fv = [draw(gen.finite(0.5, 3.0)), draw(gen.finite(0.5, 3.0))]
     unit1 = draw(st.sampled_from(UNITS))
     unit2 = unit1 if draw(st.floats(0, 1)) < 0.6 else draw(st.sampled_from(UNITS))
+    if relation == "same_numbers":
+        # the two operands hold the SAME numbers in DIFFERENT units (physically different ranges)
+        unit1, unit2 = draw(st.sampled_from([("nm", "angstrom"), ("angstrom", "nm"), ("um", "nm"), ("nm", "um")]))
+        # coarse uniform grid: the union grid then stays below ~2e5 points for a 1000x unit ratio
+        w1 = np.linspace(w1[0], max(w1[-1], w1[0] + 100.0), min(len(w1), 12))
+        k1 = "uniform"
+        raw = w1 * rs.factor("nm", unit1)
+        w2 = raw * rs.factor(unit2, "nm")
+        k2 = k1
+        v1, v2 = v1[:len(w1)], np.resize(v2, len(w1))
     # per-wavelength densities: only add/subtract, and only with fill 0 (a non-zero fill value is a raw
     # number whose unit the property does not define)
     density = op in ("add", "subtract") and fv == 0 and draw(st.booleans())
@@ -184,7 +194,8 @@ def pair(case, ctx):
         raise Violation("C13.pair.npoints", f"result has {len(rw)} points, expected ceil(span/d)+1 = {npts} "
                                             f"(span {span}, d {d})")
     dd = np.diff(rw)
-    if np.any(np.abs(dd - dd[0]) > 1e-9 * abs(dd[0])) or dd[0] > d * (1 + 1e-9):
+    res_eps = 8 * np.finfo(float).eps * float(np.max(np.abs(rw)))      # float resolution of the grid values
+    if np.any(np.abs(dd - dd[0]) > 1e-9 * abs(dd[0]) + res_eps) or dd[0] > d * (1 + 1e-9) + res_eps:
         raise Violation("C13.pair.uniform", f"result grid is not uniform at spacing <= {d}")
     exact = u1 == "nm" and u2 == "nm"
     e1, ok1 = rs.operand_on_grid(w1, case["v1"], rw, case["method"], case["fill"], exact_ends=exact)
